@@ -13,6 +13,7 @@ import (
 	"github.com/mimecast/dtail/internal/mapr"
 	"github.com/mimecast/dtail/internal/mapr/logformat"
 	"github.com/mimecast/dtail/internal/protocol"
+	"github.com/mimecast/dtail/internal/vhook"
 )
 
 // Aggregate is for aggregating mapreduce data on the DTail server side.
@@ -194,6 +195,7 @@ func (a *Aggregate) fieldFromLine(ctx context.Context, line *line.Line,
 	fields, err := a.parser.MakeFields(maprLine)
 
 	if err != nil {
+		vhook.At("agg.skip", a)
 		// Should fields be ignored anyway?
 		if err != logformat.ErrIgnoreFields {
 			return err
@@ -201,6 +203,7 @@ func (a *Aggregate) fieldFromLine(ctx context.Context, line *line.Line,
 		return nil
 	}
 	if !a.query.WhereClause(fields) {
+		vhook.At("agg.skip", a)
 		return nil
 	}
 
@@ -244,6 +247,7 @@ func (a *Aggregate) aggregateAndSerialize(ctx context.Context,
 		dlog.Server.Info("Serializing mapreduce result")
 		group.Serialize(ctx, maprMessages)
 		group = mapr.NewGroupSet()
+		vhook.At("agg.serialized", a)
 	}
 	for {
 		select {
@@ -253,6 +257,7 @@ func (a *Aggregate) aggregateAndSerialize(ctx context.Context,
 				return
 			}
 			a.aggregate(group, fields)
+			vhook.At("agg.line", a)
 		case <-a.serialize:
 			serialize()
 		case <-ctx.Done():
